@@ -69,12 +69,14 @@ XTfOrigin == << XG("GaussChebyshev", "Becke", 100, <<0, 1>>, <<3, 2>>, 7),
                 XG("Trapezoidal", "Becke", 100, <<0, 1>>, <<3, 2>>, 5),          \* contains r = 0 and r = 1e16
                 XG("ClenshawCurtis", "Becke", 101, <<0, 1>>, <<3, 2>>, 7),       \* contains r = 0 and r = 1e16
                 XG("GaussLegendre", "LinFinite", 200, <<0, 1>>, <<40, 1>>, 7),    \* finite range: boundary value at 40
-                XG("UniformInteger", "LinInf", 300, <<1, 10000>>, <<40, 1>>, 5) >>
+                XG("UniformInteger", "LinInf", 500, <<1, 10000>>, <<40, 1>>, 5) >>   \* equidistant, h = 0.08 (300 points: 2.5e-5 at alpha = 3)
 XTfNoOrigin == << XG("GaussLegendre", "HandyMod2", 200, <<0, 1>>, <<60, 1>>, 7),
                   XG("GaussLegendre", "Handy2", 220, <<0, 1>>, <<2, 1>>, 7),
                   XG("GaussLegendre", "HandyMod2", 220, <<0, 1>>, <<80, 1>>, 5) >>
 XUnbounded(g_) == g_.map \in {"Becke", "Handy2"}                  \* range [rmin, oo): the initial-value route starts at r = 1000
-XLapCalibrated(g_) == g_.map # "LinInf"                            \* 300 equidistant points: Laplacian only to 3e-3
+\* the Laplacian differentiates the radial splines twice: 100-point Becke grids reach 2e-3, the equidistant one 3e-3;
+\* it is replayed on the radial grids of the class Poisson.tla calibrates it for (>= 200 Gauss-Legendre points)
+XLapCalibrated(g_) == g_.n >= 200 /\ g_.rule = "GaussLegendre"
 XHasZero(g_) == g_.rule \in {"Trapezoidal", "ClenshawCurtis"} /\ g_.rmin = <<0, 1>>
 XFirstTiny(g_) == g_.map \in {"Handy2", "HandyMod2"} /\ g_.rule = "GaussLegendre"   \* first radial point ~1e-9
 \* atoms of heterogeneous molecular grids: different numbers of radial points and maps, degree 7
@@ -145,8 +147,9 @@ FormsSane == \A s_ \in {XFuncForms, XPointForms, XGridForms, XRobustForms} : \A 
 XPointSets == << [name |-> "near", lo |-> <<1, 1000000>>, hi |-> <<1, 20>>],
                  [name |-> "far", lo |-> <<8, 1>>, hi |-> <<500, 1>>],
                  [name |-> "centre", lo |-> <<0, 1>>, hi |-> <<0, 1>>] >>
-\* near points need the ODE to start below them: r = 0 added (include_origin) or first radial point ~1e-9 and lo >= 1e-4
-XNearLo(g_, origin_) == IF origin_ THEN <<1, 1000000>> ELSE <<1, 10000>>
+\* near points need the ODE to start below them: r = 0 added (include_origin) or first radial point ~1e-9 and lo >= 1e-3
+\* (u(r_1) = 0 is imposed at the first point r_1 ~ 1.3e-9: relative error r_1 / r, 1e-6 at r = 1e-3)
+XNearLo(g_, origin_) == IF origin_ THEN <<1, 1000000>> ELSE <<1, 1000>>
 
 \* ---- the affine law of the robust solver, derived ---------------------------------------------------
 \* with L the (linear) map rho -> potential of the plain solver and core fixed by (atnums, atcoords):
@@ -200,7 +203,9 @@ XCase(n_) ==
         ns_ == IF nat_ > 1 THEN nat_ ELSE IF kind_ = "x_lin" THEN 2 + (XH(n_, 40) % 2) ELSE 1 + (XH(n_, 40) % 3)
         st_ == XSTerms(n_, ns_, Zero3)
         solver_ == IF kind_ = "x_lin" THEN Pick(<<"ivp", "lap", "bvp", "bvp">>, m_) ELSE "bvp"
-        chan_ == ~origin_ /\ nat_ = 1 /\ solver_ # "ivp" /\ kind_ \in {"x_pruned", "x_forms", "x_tf", "x_lin", "x_law"} /\ (kind_ = "x_pruned" \/ XBool(n_, 41))
+        \* l > 0 content needs an unbounded radial range (as for rcut in Poisson.tla: u_l(r_max) = 0 is imposed, but u_l ~ r^-l)
+        chan_ == ~origin_ /\ nat_ = 1 /\ solver_ # "ivp" /\ kind_ \in {"x_pruned", "x_forms", "x_tf", "x_lin", "x_law"}
+                 /\ (kind_ = "x_pruned" \/ XBool(n_, 41)) /\ (kind_ = "x_law" \/ XUnbounded(g1_))
         terms_ == IF chan_ THEN st_ \o << XL1(n_) >> ELSE st_
         els_ == [j_ \in 1..nat_ |-> XDraw(ParamKeys, n_, 50 + j_)]
     IN [id |-> XBase + n_, kind |-> kind_, atoms |-> atoms_, grids |-> grids_, rot |-> rot_, sep |-> sep_,
@@ -263,6 +268,7 @@ XCaseAdmissible(c_) ==
           /\ SeqMax(c_.pruned.degs) \div 2 >= 2)
     /\ (c_.kind = "x_hetmol" => \E i_, j_ \in 1..Len(c_.grids) : c_.grids[i_].n # c_.grids[j_].n \/ c_.grids[i_].map # c_.grids[j_].map)
     /\ c_.lin[2] # QZero
+    /\ (c_.kind # "x_law" => \A k_ \in 1..Len(c_.terms) : c_.terms[k_].l > 0 => XUnbounded(c_.grids[1]) /\ c_.rcut = 0)
     /\ (c_.ivp => XUnbounded(c_.grids[1]) /\ \A k_ \in 1..Len(c_.terms) : c_.terms[k_].l = 0)
     /\ XUnbounded(c_.ivpgrid)
     /\ (c_.kind = "x_lin" => Len(c_.terms) >= 2)
